@@ -1,0 +1,246 @@
+//go:build verif
+
+package pool
+
+// Verification hook for property C20 ("recycled memory is exclusively owned"), build tag "verif" only.
+//
+// Disabled (the default): getHook/releaseHook are one atomic load each and change nothing.
+// Enabled (VerifPoison(true), or VERIF_POOL_POISON=1 in the environment at start-up):
+//
+//   - ReleaseBuf fills the whole backing array (cap) with the poison octet 0xDB and parks the buffer in a
+//     bounded FIFO quarantine instead of handing it back to bytespool, so that a stale reader sees poison
+//     (not another owner's plausible data) and a stale writer damages nothing that is in use;
+//   - when a buffer leaves the quarantine (FIFO overflow or VerifFlush) the poison is verified: any octet
+//     that differs proves a WRITE AFTER RELEASE -> event "write-after-release" with the release stack;
+//   - every GetBuf/ReleaseBuf pair is logged by backing array: releasing a quarantined array again is a
+//     "double-release"; releasing an array that GetBuf never handed out is a "foreign-release".
+//
+// The hook is a SEARCH tool for failing schedules (like the race detector); it proves nothing.
+
+import (
+	"fmt"
+	"os"
+	"runtime"
+	"strings"
+	"sync"
+	"sync/atomic"
+	"unsafe"
+
+	"github.com/IrineSistiana/bytespool"
+)
+
+const (
+	VerifPoisonByte   = 0xDB
+	verifQuarMaxBufs  = 2048
+	verifQuarMaxBytes = 48 << 20
+	verifMaxEvents    = 256
+	verifStackDepth   = 10
+)
+
+type VerifEvent struct {
+	Kind  string // write-after-release | double-release | foreign-release
+	Cap   int
+	Off   int    // first damaged offset (write-after-release)
+	Got   []byte // up to 16 octets found at Off
+	Stack string // stack of the (first) release of that buffer; for double/foreign release: the offending release
+}
+
+func (e VerifEvent) String() string {
+	return fmt.Sprintf("%s cap=%d off=%d got=%x stack=%s", e.Kind, e.Cap, e.Off, e.Got, e.Stack)
+}
+
+type verifQuarEntry struct {
+	b   []byte // full capacity
+	pcs [verifStackDepth]uintptr
+}
+
+var (
+	verifOn     atomic.Bool // get/release pairs are tracked (stays on once enabled)
+	verifPoison atomic.Bool // released buffers are poisoned and quarantined
+
+	verifMu     sync.Mutex
+	verifLive   = map[*byte]struct{}{} // arrays handed out by GetBuf and not yet released
+	verifQuar   = map[*byte]struct{}{} // arrays sitting in the quarantine
+	verifFifo   []verifQuarEntry       // FIFO, head at index verifHead
+	verifHead   int
+	verifBytes  int
+	verifEvents []VerifEvent
+	verifCounts = map[string]int{}
+	verifGets   uint64
+	verifRels   uint64
+)
+
+func init() {
+	if os.Getenv("VERIF_POOL_POISON") == "1" {
+		VerifPoison(true)
+	}
+}
+
+// VerifPoison switches poisoning + quarantine on or off. The first VerifPoison(true) also starts the
+// tracking of get/release pairs, which then stays on (so that buffers handed out while poisoning is paused are
+// still known when they come back). Enable it before the first GetBuf of the process: a buffer obtained
+// before that is unknown and its release would be reported as foreign.
+// Switching poisoning off flushes the quarantine (verifying every parked buffer).
+func VerifPoison(on bool) {
+	if on {
+		verifOn.Store(true)
+		verifPoison.Store(true)
+		return
+	}
+	verifPoison.Store(false)
+	VerifFlush()
+}
+
+// VerifFlush verifies and returns to bytespool every quarantined buffer.
+func VerifFlush() {
+	verifMu.Lock()
+	defer verifMu.Unlock()
+	for verifHead < len(verifFifo) {
+		verifEvictLocked()
+	}
+	verifFifo = verifFifo[:0]
+	verifHead = 0
+}
+
+// VerifEvents returns the violation events recorded so far (at most verifMaxEvents are kept in full) and
+// the total count per kind, and clears both.
+func VerifEvents() ([]VerifEvent, map[string]int) {
+	verifMu.Lock()
+	defer verifMu.Unlock()
+	ev := verifEvents
+	cnt := verifCounts
+	verifEvents = nil
+	verifCounts = map[string]int{}
+	return ev, cnt
+}
+
+// VerifStats returns the number of GetBuf / ReleaseBuf calls seen while enabled and the quarantine length.
+func VerifStats() (gets, releases uint64, quarantined int) {
+	verifMu.Lock()
+	defer verifMu.Unlock()
+	return verifGets, verifRels, len(verifFifo) - verifHead
+}
+
+func verifRecordLocked(e VerifEvent) {
+	verifCounts[e.Kind]++
+	if len(verifEvents) < verifMaxEvents {
+		verifEvents = append(verifEvents, e)
+	}
+}
+
+func verifStack(pcs []uintptr) string {
+	var sb strings.Builder
+	fr := runtime.CallersFrames(pcs)
+	for {
+		f, more := fr.Next()
+		if f.Function != "" {
+			fn := f.Function
+			if i := strings.LastIndexByte(fn, '/'); i >= 0 {
+				fn = fn[i+1:]
+			}
+			if sb.Len() > 0 {
+				sb.WriteByte('<')
+			}
+			fmt.Fprintf(&sb, "%s:%d", fn, f.Line)
+		}
+		if !more {
+			break
+		}
+	}
+	return sb.String()
+}
+
+func verifTrim(pcs *[verifStackDepth]uintptr) []uintptr {
+	n := 0
+	for n < len(pcs) && pcs[n] != 0 {
+		n++
+	}
+	return pcs[:n]
+}
+
+// verify the poison of the head entry and hand the array back to bytespool
+func verifEvictLocked() {
+	e := verifFifo[verifHead]
+	verifFifo[verifHead] = verifQuarEntry{}
+	verifHead++
+	verifBytes -= len(e.b)
+	p := unsafe.SliceData(e.b)
+	delete(verifQuar, p)
+	for i, c := range e.b {
+		if c != VerifPoisonByte {
+			end := i + 16
+			if end > len(e.b) {
+				end = len(e.b)
+			}
+			verifRecordLocked(VerifEvent{Kind: "write-after-release", Cap: len(e.b), Off: i,
+				Got: append([]byte(nil), e.b[i:end]...), Stack: verifStack(verifTrim(&e.pcs))})
+			break
+		}
+	}
+	bytespool.Release(e.b)
+	if verifHead > 1024 && verifHead*2 > len(verifFifo) {
+		n := copy(verifFifo, verifFifo[verifHead:])
+		for i := n; i < len(verifFifo); i++ {
+			verifFifo[i] = verifQuarEntry{}
+		}
+		verifFifo = verifFifo[:n]
+		verifHead = 0
+	}
+}
+
+func getHook(b []byte) []byte {
+	if !verifOn.Load() || cap(b) == 0 || cap(b) > 1<<30 {
+		return b
+	}
+	p := unsafe.SliceData(b)
+	verifMu.Lock()
+	verifGets++
+	verifLive[p] = struct{}{}
+	verifMu.Unlock()
+	return b
+}
+
+// releaseHook returns true when it took the buffer over (ReleaseBuf must then not pass it to bytespool).
+func releaseHook(b []byte) bool {
+	if !verifOn.Load() || b == nil || cap(b) == 0 || cap(b) > 1<<30 {
+		return false // bytespool keeps its own behaviour (panics on nil, ignores empty and huge buffers)
+	}
+	p := unsafe.SliceData(b)
+	full := b[:cap(b)]
+	var e verifQuarEntry
+	runtime.Callers(3, e.pcs[:])
+	verifMu.Lock()
+	verifRels++
+	if _, q := verifQuar[p]; q {
+		verifRecordLocked(VerifEvent{Kind: "double-release", Cap: cap(b), Stack: verifStack(verifTrim(&e.pcs))})
+		verifMu.Unlock()
+		return true // already parked; returning it twice to bytespool would hand one array to two owners
+	}
+	if _, l := verifLive[p]; !l {
+		verifRecordLocked(VerifEvent{Kind: "foreign-release", Cap: cap(b), Stack: verifStack(verifTrim(&e.pcs))})
+		verifMu.Unlock()
+		return false // let bytespool judge it (it panics on a capacity that is no size class)
+	}
+	delete(verifLive, p)
+	if !verifPoison.Load() {
+		verifMu.Unlock()
+		return false // tracking only: straight back to bytespool
+	}
+	verifQuar[p] = struct{}{}
+	verifMu.Unlock()
+
+	// poison outside the lock: the releaser still is the only legitimate holder
+	for i := range full {
+		full[i] = VerifPoisonByte
+	}
+
+	e.b = full
+	verifMu.Lock()
+	verifFifo = append(verifFifo, e)
+	verifBytes += len(full)
+	for len(verifFifo)-verifHead > verifQuarMaxBufs || verifBytes > verifQuarMaxBytes {
+		verifEvictLocked()
+	}
+	verifMu.Unlock()
+	return true
+}
